@@ -306,5 +306,25 @@ def genSearch (mode : String) (seed n maxDepth : Nat) (rootsFile : String)
       -- "stop": the k loop is expanded by the orchestrator (it needs the poll count of the free run)
       out.putStrLn s!"search\t{mb}\t{job p (d + 2) 0 true}"
 
+/-! ### C17: whole games, biased to castling / e.p. / all four promotions -/
+
+def genGames (seed n : Nat) (rootsFile : String) : IO Unit := do
+  let roots ← readLines rootsFile
+  let out ← IO.getStdout
+  let mut r := Rng.ofSeed (seed + 1009)
+  let rootPos := roots.filterMap fun f => (readPosition f).map (·.pos)
+  for i in List.range n do
+    let (r1, sel) := r.below 10
+    let (r2, start) : Rng × Rules.Pos :=
+      if sel < 4 then (r1, startPosition.pos)
+      else if sel < 6 && !rootPos.isEmpty then r1.pick rootPos
+      else
+        let (r', p) := templatePos r1
+        (r', p.getD startPosition.pos)
+    let (r3, len) := r2.below (if i % 7 == 0 then 300 else 70)
+    let (r4, _, ms) := playout r3 start (len + 1)
+    r := r4
+    out.putStrLn s!"game\t{posText start}\t{" ".intercalate (ms.map Move.text)}"
+
 end Driver
 end Tcheran
